@@ -36,7 +36,8 @@ def thm(name, file):
 
 GEN_MODEL_FILES = ["Strs.v", "GoTypes.v", "TypeString.v", "VarName.v", "Registry.v", "Scope.v", "Gen.v",
                    "TmplAst.v", "TmplExec.v", "gen/Tables.v", "gen/TemplateSrc.v", "WellScoped.v", "L2Check.v"]
-MOCK_MODEL_FILES = ["Strs.v", "MockSem.v", "MockSpec.v", "MockSeq_Proofs.v"]
+MOCK_MODEL_FILES = ["Strs.v", "MockSem.v", "MockSpec.v", "MockSeq_Proofs.v", "MockCheck.v", "P_C07.v",
+                    "gen/TemplateSrc.v", "TmplAst.v"]
 
 ALL_FAMILIES = ["names_distinct", "fields_distinct", "names_body_idents", "names_keywords", "names_shadow_types",
                 "names_qualifiers", "names_tparams", "tparam_exported", "method_name_clash", "tparams_clash",
@@ -53,18 +54,33 @@ PROPS = {
     "C02": dict(kind="gen", files=["P_C02.v"], theorems=[], oracle=O.o_c02,
                 known=["unexported_foreign", "not_a_method_set_interface", "method_name_clash", "mock_name_twice",
                        "lookup_accepts_values"]),
-    "C03": dict(kind="mock", files=["P_C03.v"], need="C",
-                theorems=[thm("C03_once_and_forward", "P_C03"), thm("C03_plain_call", "P_C03"),
-                          thm("C03_histories", "P_C03")]),
-    "C04": dict(kind="mock", files=["P_C04.v"], need="C",
+    "C03": dict(kind="mock", files=["P_C03.v", "TmplClosed.v"], need="B",
+                theorems=[thm("C03_call_core", "P_C03"), thm("C03_once_and_forward", "P_C03"),
+                          thm("C03_plain_call", "P_C03"), thm("C03_histories", "P_C03"),
+                          thm("moq_template_control_closed", "TmplClosed")]),
+    "C04": dict(kind="mock", files=["P_C04.v", "TmplClosed.v"], need="BARXNC",
                 theorems=[thm("C04_zero_value", "P_C04"), thm("C04_refines_list", "P_C04"),
                           thm("C04_record_shape", "P_C04"), thm("C04_before_func", "P_C04"),
-                          thm("C04_recorded_despite_panic", "P_C04"), thm("C04_snapshot_stable", "P_C04")]),
-    "C07": dict(kind="mock", files=["P_C07.v"], need="CM",
-                theorems=[thm("C07_panic", "P_C07"), thm("C07_panic_names", "P_C07"), thm("C07_stub", "P_C07")]),
-    "C08": dict(kind="mock", files=["P_C08.v"], need="C",
+                          thm("C04_recorded_despite_panic", "P_C04"), thm("C04_snapshot_stable", "P_C04"),
+                          thm("canonical_components", "MockCheck"),
+                          thm("moq_template_control_closed", "TmplClosed")]),
+    "C05": dict(kind="mock", files=["P_C05.v", "MockConc.v", "MockConc_Proofs.v", "TmplClosed.v"], need="DB",
+                theorems=[thm("C05_no_data_race", "P_C05"), thm("C05_access_under_lock", "P_C05"),
+                          thm("C05_atomic_logs", "P_C05"), thm("C05_snapshots_never_change", "P_C05"),
+                          thm("C05_prefix_between_resets", "P_C05"),
+                          thm("moq_template_control_closed", "TmplClosed")]),
+    "C06": dict(kind="mock", files=["P_C06.v", "MockConc.v", "MockConc_Proofs.v", "TmplClosed.v"], need="D",
+                theorems=[thm("C06_callback_holds_no_lock", "P_C06"), thm("C06_never_two_locks", "P_C06"),
+                          thm("C06_deadlock_free", "P_C06"), thm("C06_reentrancy", "P_C06"),
+                          thm("moq_template_control_closed", "TmplClosed")]),
+    "C07": dict(kind="mock", files=["P_C07.v", "TmplClosed.v"], need="BM",
+                theorems=[thm("C07_panic", "P_C07"), thm("C07_panic_names", "P_C07"), thm("C07_stub", "P_C07"),
+                          thm("moq_template_control_closed", "TmplClosed")]),
+    "C08": dict(kind="mock", files=["P_C08.v", "TmplClosed.v"], need="BARXNC",
                 theorems=[thm("C08_presence", "P_C08"), thm("C08_reset_one", "P_C08"),
-                          thm("C08_reset_all", "P_C08"), thm("C08_restart", "P_C08")]),
+                          thm("C08_reset_all", "P_C08"), thm("C08_restart", "P_C08"),
+                          thm("canonical_components", "MockCheck"),
+                          thm("moq_template_control_closed", "TmplClosed")]),
     "C09": dict(kind="gen", files=["P_C09.v"], theorems=[], oracle=O.o_c09,
                 known=["tparam_exported", "self_check_not_instantiable", "constraint_unqualified_printer",
                        "walk_incomplete", "tparams_clash", "names_tparams", "not_a_method_set_interface"]),
